@@ -389,7 +389,7 @@ impl St {
                     fin!(s, Res::Err(old))
                 }
             }
-            K::Fence { .. } | K::Yield | K::UnsyncLoad { .. } | K::WithMut { .. } => fin!(s, Res::U),
+            K::Fence { .. } | K::Yield | K::Mark | K::UnsyncLoad { .. } | K::WithMut { .. } => fin!(s, Res::U),
             K::Await { a, want, .. } => {
                 if s.atomics[a] == want {
                     fin!(s, Res::V(want))
